@@ -3,8 +3,9 @@ import RlibModel.Model.SegtreeItems
 Line-protocol driver for engine `segtree` (properties C01, C02).
 
 Case line:  `<item> <ctor> <n> <v…> ; op ; op ; …`
-  item  min | max | sum | minadd | maxadd | sumadd | mm | smm | aff | str
-        (mm = Combinator<MinAdd,MaxAdd>, smm = Combinator<Combinator<SumAdd,MinAdd>,MaxAdd>)
+  item  min | max | sum | minadd | maxadd | sumadd | mm | smm | aff | aa | str
+        (mm = Combinator<MinAdd,MaxAdd>, smm = Combinator<Combinator<SumAdd,MinAdd>,MaxAdd>, aa = Combinator<AffHash,AffHash>)
+  value `v`, or `v@md` (`x@a:b` for aff/aa, `w@k:c` for str): an element that carries a pending modifier of its own
   ctor  new (one value) | slice | iter (n values)
   op    set i v | mod l r <modifier> | ask l r | lb l <pred> | lbr r <pred> | dbg
 Answer: constructor result and one answer per op, joined by ` ; `:
@@ -226,31 +227,76 @@ def predStr : List String → Option (List Nat → Bool)
 
 def showPairI (a : Int × Int) : String := s!"({a.1},{a.2})"
 
+/-- `v` or `v@md` -/
+def intVal? (s : String) : Option (Int × Int) :=
+  match s.splitOn "@" with
+  | [v] => (parseInt? v).map fun v => (v, 0)
+  | [v, m] => match parseInt? v, parseInt? m with
+    | some v, some m => some (v, m)
+    | _, _ => none
+  | _ => none
+
+/-- `v` only (items without a modifier field) -/
+def plainVal? (s : String) : Option Int := if s.contains '@' then none else parseInt? s
+
+/-- `x` or `x@a:b` -/
+def affVal? (s : String) : Option (Int × Option (Int × Int)) :=
+  match s.splitOn "@" with
+  | [x] => (parseInt? x).map fun x => (x, none)
+  | [x, m] => match parseInt? x, intPair (m.splitOn ":") with
+    | some x, some ab => some (x, some ab)
+    | _, _ => none
+  | _ => none
+
+def affElem (x : Int) (md : Option (Int × Int)) : AffHash := ⟨x % hashP, hashB, 1, md⟩
+
+/-- `w` or `w@k:c` -/
+def strVal? (s : String) : Option StrCat :=
+  match s.splitOn "@" with
+  | [w] => (parseWord w).map fun w => ⟨w, none⟩
+  | [w, m] => match parseWord w, natPair (m.splitOn ":") with
+    | some w, some kc => some ⟨w, some kc⟩
+    | _, _ => none
+  | _ => none
+
+def affNotIn (ps : List (Int × Int)) (h pw : Int) : Bool := !(ps.any fun p => p.1 == h && p.2 == pw)
+
+def predAA : List String → Option ((Int × Int × Int) × (Int × Int × Int) → Bool)
+  | ["npre0", w] => (parseIntsComma? w).map fun w => let ps := affPrefixes w; fun a => affNotIn ps a.1.1 a.1.2.1
+  | ["nsuf0", w] => (parseIntsComma? w).map fun w => let ps := affSuffixes w; fun a => affNotIn ps a.1.1 a.1.2.1
+  | ["npre1", w] => (parseIntsComma? w).map fun w => let ps := affPrefixes w; fun a => affNotIn ps a.2.1 a.2.2.1
+  | ["nsuf1", w] => (parseIntsComma? w).map fun w => let ps := affSuffixes w; fun a => affNotIn ps a.2.1 a.2.2.1
+  | ts => predConst ts
+
+def showAff (a : Int × Int × Int) : String := s!"({a.1},{a.2.1},{a.2.2})"
+
 def ioMin : ItemIO MinI Unit Int :=
-  ⟨minItem, fun s => (parseInt? s).map MinI.mk, unitMod, predMin, MinI.dbg, toString⟩
+  ⟨minItem, fun s => (plainVal? s).map MinI.mk, unitMod, predMin, MinI.dbg, toString⟩
 def ioMax : ItemIO MaxI Unit Int :=
-  ⟨maxItem, fun s => (parseInt? s).map MaxI.mk, unitMod, predMax, MaxI.dbg, toString⟩
+  ⟨maxItem, fun s => (plainVal? s).map MaxI.mk, unitMod, predMax, MaxI.dbg, toString⟩
 def ioSum : ItemIO SumI Unit Int :=
-  ⟨sumItem, fun s => (parseInt? s).map SumI.mk, unitMod, predSum, SumI.dbg, toString⟩
+  ⟨sumItem, fun s => (plainVal? s).map SumI.mk, unitMod, predSum, SumI.dbg, toString⟩
 def ioMinAdd : ItemIO MinAdd Int Int :=
-  ⟨minAddItem, fun s => (parseInt? s).map fun v => ⟨v, 0⟩, intMod, predMin, MinAdd.dbg, toString⟩
+  ⟨minAddItem, fun s => (intVal? s).map fun v => ⟨v.1, v.2⟩, intMod, predMin, MinAdd.dbg, toString⟩
 def ioMaxAdd : ItemIO MaxAdd Int Int :=
-  ⟨maxAddItem, fun s => (parseInt? s).map fun v => ⟨v, 0⟩, intMod, predMax, MaxAdd.dbg, toString⟩
+  ⟨maxAddItem, fun s => (intVal? s).map fun v => ⟨v.1, v.2⟩, intMod, predMax, MaxAdd.dbg, toString⟩
 def ioSumAdd : ItemIO SumAdd Int (Int × Int) :=
-  ⟨sumAddItem, fun s => (parseInt? s).map fun v => ⟨v, 1, 0⟩, intMod, predSumAdd, SumAdd.dbg, showPairI⟩
+  ⟨sumAddItem, fun s => (intVal? s).map fun v => ⟨v.1, 1, v.2⟩, intMod, predSumAdd, SumAdd.dbg, showPairI⟩
 def ioMM : ItemIO (MinAdd × MaxAdd) Int (Int × Int) :=
-  ⟨prodItem minAddItem maxAddItem, fun s => (parseInt? s).map fun v => (⟨v, 0⟩, ⟨v, 0⟩), intMod, predMM,
+  ⟨prodItem minAddItem maxAddItem, fun s => (intVal? s).map fun v => (⟨v.1, v.2⟩, ⟨v.1, v.2⟩), intMod, predMM,
    combDbg MinAdd.dbg MaxAdd.dbg, showPairI⟩
 def ioSMM : ItemIO ((SumAdd × MinAdd) × MaxAdd) Int (((Int × Int) × Int) × Int) :=
   ⟨prodItem (prodItem sumAddItem minAddItem) maxAddItem,
-   fun s => (parseInt? s).map fun v => ((⟨v, 1, 0⟩, ⟨v, 0⟩), ⟨v, 0⟩), intMod, predSMM,
+   fun s => (intVal? s).map fun v => ((⟨v.1, 1, v.2⟩, ⟨v.1, v.2⟩), ⟨v.1, v.2⟩), intMod, predSMM,
    combDbg (combDbg SumAdd.dbg MinAdd.dbg) MaxAdd.dbg,
    fun a => s!"(({showPairI a.1.1},{a.1.2}),{a.2})"⟩
 def ioAff : ItemIO AffHash (Int × Int) (Int × Int × Int) :=
-  ⟨affHashItem, fun s => (parseInt? s).map affLeaf, intPair, predAff, AffHash.dbg,
-   fun a => s!"({a.1},{a.2.1},{a.2.2})"⟩
+  ⟨affHashItem, fun s => (affVal? s).map fun v => affElem v.1 v.2, intPair, predAff, AffHash.dbg, showAff⟩
+def ioAA : ItemIO (AffHash × AffHash) (Int × Int) ((Int × Int × Int) × (Int × Int × Int)) :=
+  ⟨prodItem affHashItem affHashItem, fun s => (affVal? s).map fun v => (affElem v.1 v.2, affElem (2 * v.1 + 1) v.2),
+   intPair, predAA, combDbg AffHash.dbg AffHash.dbg, fun a => s!"({showAff a.1},{showAff a.2})"⟩
 def ioStr : ItemIO StrCat (Nat × Nat) (List Nat) :=
-  ⟨strCatItem, fun s => (parseWord s).map fun w => ⟨w, none⟩, natPair, predStr, StrCat.dbg, showWord⟩
+  ⟨strCatItem, strVal?, natPair, predStr, StrCat.dbg, showWord⟩
 
 def handle (line : String) : String :=
   match splitOps line with
@@ -271,6 +317,7 @@ def handle (line : String) : String :=
         | "mm" => runCase ioMM ctor vals n ops
         | "smm" => runCase ioSMM ctor vals n ops
         | "aff" => runCase ioAff ctor vals n ops
+        | "aa" => runCase ioAA ctor vals n ops
         | "str" => runCase ioStr ctor vals n ops
         | _ => badLine line
     | _ => badLine line
